@@ -15,9 +15,9 @@ from ..terms import Leaf, Null, Bin, valida
 from .c09 import IMPORTS
 
 PROP = "C14"
-THEOREMS = ["C14_value_eq_refl", "C14_value_eq_sym", "C14_value_eq_trans", "C14_condition_refl", "C14_condition_sym", "C14_condition_trans", "C14_condition_commute", "C14_path_equiv_refl", "C14_path_equiv_sym", "C14_path_equiv_trans", "C14_rule_equiv_refl", "C14_rule_equiv_sym", "C14_rule_equiv_trans", "C14_schema_equiv_refl", "C14_rebuilt_copies_equal"]
+THEOREMS = ["C14_value_eq_refl", "C14_value_eq_sym", "C14_value_eq_trans", "C14_condition_refl", "C14_condition_sym", "C14_condition_trans", "C14_condition_commute", "C14_path_equiv_refl", "C14_path_equiv_sym", "C14_path_equiv_trans", "C14_rule_equiv_refl", "C14_rule_equiv_sym", "C14_rule_equiv_trans", "C14_schema_equiv_refl", "C14_rebuilt_copies_equal", "C14_commuted_same_behaviour", "C14_commuted_same_fields", "C14_same_definition_same_filter", "C14_same_definition_equal", "C14_same_definition_same_verdict", "C14_same_definition_same_selection", "C14_eq_callables_see_only_equality"]
 FACT_LEMMAS = []
-DEPENDS = ["Eq.v", "Proofs/C14Proof.v", "Proofs/C04Proof.v", "Properties/C14.v", "Py.v", "Rule.v", "Path.v", "Cond.v", "Dsl.v", "Inst.v", "RunSpec.v", "Gen/TablesGen.v", "Gen/CallablesGen.v", "Gen/SpecGen.v", "Spec.v", "SpecIO.v"]
+DEPENDS = ["Eq.v", "Proofs/C14Proof.v", "Proofs/C14BehProof.v", "Proofs/PyFacts.v", "Proofs/Tie.v", "Proofs/C04Proof.v", "Properties/C14.v", "Py.v", "Rule.v", "Path.v", "Cond.v", "Dsl.v", "Inst.v", "RunSpec.v", "Gen/TablesGen.v", "Gen/CallablesGen.v", "Gen/SpecGen.v", "Spec.v", "SpecIO.v"]
 ASSUMPTIONS = ["Layer P models CPython's operators (pysem)"]
 
 SWAPS = [(1, 1.0), (1, True), (1.0, True), (0, False), (0, 0.0), (2, 2.0), ("a", "b"), (1, 2), ("1", 1), (None, 0), ([1], (1,))]
